@@ -7,6 +7,7 @@ import (
 	"encoding/json"
 	"fmt"
 
+	"github.com/bytom/bytom/protocol/bc"
 	"github.com/bytom/bytom/protocol/bc/types"
 )
 
@@ -271,6 +272,54 @@ func c04Line(c *Ctx, line string) {
 	}
 }
 
+// c04BigBlocks: blocks with many cheap transactions (one coinbase-style input, one output) around the
+// 1024 / 2048 marks, built once per run and taken through every serialisation flag: model
+// differential on the decoded dump plus the round-trip / retention oracle.
+var c04BigBlockSizes = []int{1023, 1024, 1025, 1040, 2049}
+
+func c04BigBlocks(c *Ctx, g *codecGen) {
+	sizes := c04BigBlockSizes
+	if c.Tier == "thorough" {
+		sizes = append(append([]int{}, sizes...), 1000+c.Rng.Intn(3000), 4096, 4097)
+	}
+	for _, n := range sizes {
+		b := &types.Block{BlockHeader: *g.header()}
+		for i := 0; i < n; i++ {
+			var in *types.TxInput
+			if i%7 == 3 {
+				in = types.NewSpendInput(nil, g.hash(), bc.AssetID(g.hash()), uint64(i), uint64(i%5), []byte{0x51}, nil)
+			} else {
+				in = types.NewCoinbaseInput([]byte{byte(i), byte(i >> 8)})
+			}
+			out := types.NewOriginalTxOutput(bc.AssetID{V0: uint64(i)}, uint64(i)+1, []byte{0x51, byte(i)}, nil)
+			b.Transactions = append(b.Transactions, &types.Tx{TxData: types.TxData{Version: 1, TimeRange: uint64(i), Inputs: []*types.TxInput{in}, Outputs: []*types.TxOutput{out}}})
+		}
+		for _, flag := range []int{types.SerBlockFull, types.SerBlockTransactions, types.SerBlockHeader} {
+			var text []byte
+			switch flag {
+			case types.SerBlockHeader:
+				text, _ = b.MarshalTextForBlockHeader()
+			case types.SerBlockTransactions:
+				text, _ = b.MarshalTextForTransactions()
+			default:
+				text, _ = b.MarshalText()
+			}
+			if text != nil {
+				res := runCodec("blk", text)
+				c.Op(opLine("blk", text), res.line)
+				c.Count(fmt.Sprintf("bigblk:txs=%d", n))
+				c.Count("outcome:" + res.outcome)
+				if res.outcome != "ok" {
+					failLimited(c, fmt.Sprintf("blk-decode-of-own-encoding-fails:txs=%d:flag=%d", n, flag), fmt.Sprintf("a block with %d transactions, serialisation flag %d: %s", n, flag, res.line))
+				} else if flag != types.SerBlockHeader && len(res.blk.Transactions) != n {
+					failLimited(c, fmt.Sprintf("blk-drops-transactions:txs=%d:flag=%d", n, flag), fmt.Sprintf("a block with %d transactions decodes with %d", n, len(res.blk.Transactions)))
+				}
+			}
+			oracleBlock(c, b, flag)
+		}
+	}
+}
+
 func runC04(c *Ctx) {
 	c.Rule = "distinct = distinct encodings of generated well-formed values (tx with all 4 input kinds / 2 output kinds / suffixes / nil-vs-empty, headers with 0-5 suplinks, blocks in 3 serialisations)"
 	if c.Replay != "" {
@@ -283,6 +332,7 @@ func runC04(c *Ctx) {
 		c04Line(c, l)
 	}
 	g := &codecGen{r: c.Rng, count: c.Count}
+	c04BigBlocks(c, g)
 	for i := 0; i < c.N; i++ {
 		var kind string
 		var text []byte
